@@ -97,7 +97,8 @@ class ExprInModel(ExprModel):
                     expr = ExprBinModel(expr, BinExprType.Or, t)
 
         if expr is None:
-            expr = ExprLiteralModel(1, False, 1)
+            # Nothing is a member of an empty collection
+            expr = ExprLiteralModel(0, False, 1)
 
         from vsc.visitors.model_pretty_printer import ModelPrettyPrinter
         return expr.build(btor) if expr is not None else None
